@@ -22,7 +22,7 @@ RULE = ("cases: histories of 1-14 add / remove / replace over a committed pool o
         "removal or replacement of a loaded certificate, and >= 2 distinct probe answers; distinct by op text.")
 ASSUMPTIONS = [
     "PEM/x509/key parsing and SHA-256 are oracles: operations carry the parsed (fingerprint, names, expiration); the driver checks them against the real parser for every pool certificate",
-    "certificate names containing '/' are dropped at parse (fix 5453ccc) and never reach the trie: the resolver's trie only sees plain names, so the regex oracles are irrelevant for C17 (the model runs with regexes that never compile)",
+    "certificate names containing '/' are dropped at parse (fix 44260b2) and never reach the trie: the resolver's trie only sees plain names, so the regex oracles are irrelevant for C17 (the model runs with regexes that never compile)",
     "idna::domain_to_ascii is an oracle on names that are not plain ASCII: its answers are passed as `idna` rows and checked by the driver against the real crate; on the other names it is ASCII lower-casing (checked per name)",
     "HashMap-backed store and index are modelled as association lists with unique keys",
     "the rustls handshake (ResolvesServerCert::resolve glue, default certificate), the https.rs listener glue and the 421 call site of the strict-SNI predicate are exercised by the black-box tiers only (real worker, real handshakes, H1 and H2 requests, counting backend), not by proof",
